@@ -178,14 +178,14 @@ mpn_mulmod_2expm1(mp_ptr xp, mp_ptr yp, mp_ptr zp, mpir_ui b,
 	}
       ASSERT (typp[m - 1] >> (GMP_NUMB_BITS - k) == 0);	/* have h bits */
 
-      car = yp[m - 1];
-      yp[m - 1] &= GMP_NUMB_MASK >> k;
+      /* the operand must not be written to, not even temporarily: it can be
+         a caller's source operand (the modulus of mpz_powm via mpn_redc_n and
+         mpn_mulmod_bnm1) that other threads are reading */
+      MPN_COPY (typm, yp, m);
+      typm[m - 1] &= GMP_NUMB_MASK >> k;	/* have h bits */
       
-      ASSERT (yp[m - 1] >> (GMP_NUMB_BITS - k) == 0);	/* have h bits */  
-      
-      c1 = mpn_sumdiff_n (typm, typp, yp, typp, m);
+      c1 = mpn_sumdiff_n (typm, typp, typm, typp, m);
       c = typm[m - 1] >> (GMP_NUMB_BITS - k);
-      yp[m - 1] = car;
       MPN_INCR_U (typm, m, c);
       c1 = mpn_add_1 (typp, typp, m, c1);
       typm[m - 1] &= GMP_NUMB_MASK >> k;
@@ -208,14 +208,11 @@ mpn_mulmod_2expm1(mp_ptr xp, mp_ptr yp, mp_ptr zp, mpir_ui b,
 	}
       ASSERT (tzpp[m - 1] >> (GMP_NUMB_BITS - k) == 0);	/* have h bits */
       
-      car = zp[m - 1];
-      zp[m - 1] &= GMP_NUMB_MASK >> k;
+      MPN_COPY (tzpm, zp, m);
+      tzpm[m - 1] &= GMP_NUMB_MASK >> k;	/* have h bits */
       
-      ASSERT (zp[m - 1] >> (GMP_NUMB_BITS - k) == 0);	/* have h bits */
-      
-      c2 = mpn_sumdiff_n (tzpm, tzpp, zp, tzpp, m);
+      c2 = mpn_sumdiff_n (tzpm, tzpp, tzpm, tzpp, m);
       c = tzpm[m - 1] >> (GMP_NUMB_BITS - k);
-      zp[m - 1] = car;
       MPN_INCR_U (tzpm, m, c);
       c2 = mpn_add_1 (tzpp, tzpp, m, c2);
       tzpm[m - 1] &= GMP_NUMB_MASK >> k;
